@@ -10,6 +10,9 @@ copies under its RLock, memory_store.go:120-131; BoltDB: one View transaction; L
 snapshot). So a scan of the production stack — private layers owned by the reader, ONE shared cache
 layer, possibly its tempstore, the backend — reads every cache layer at one moment `t1` and the backend
 at a later moment `t0`; anything may happen to the shared layer and the backend in between.
+(`SeekAsync` iterates the tempstore's maps in its goroutine, i.e. a little later than the store's own maps:
+the same thing, as a tempstore's maps never change — except in the error branch of persist, see
+Model/Store/Locks.lean and the known finding persist-failure-map-race.)
 Core Lean only.
 -/
 import NeoModel.Model.Store.Spec
